@@ -1,6 +1,6 @@
 (* C11 -- close semantics and shared-handle lifecycle (mpmc part; the oneshot, broadcast
    and state-broadcast parts are in C11b.v). *)
-From FI Require Import Base Mpmc MpmcSpec MpmcProofs MpmcCloseProofs.
+From FI Require Import Base Mpmc MpmcSpec MpmcProofs MpmcCloseProofs MpmcHandleProofs.
 
 (* close() is permanent and idempotent: NewlyClosed exactly once. *)
 Theorem C11_close_status : forall s,
@@ -67,6 +67,16 @@ Theorem C11_close_wakes_trace : forall kr ks c ls,
   close_wakes_ok kr ks (mtrace (init kr ks c) ls) = true.
 Proof. exact close_wakes_trace_holds. Qed.
 
+(* The handle-lifecycle monitor [handles_ok] (the one the check evaluates on the real crate's
+   traces) holds on every contract-respecting encoded history with whole-call handle drops:
+   without an explicit close() the channel is closed exactly when one side has no handle left
+   (handles counted from the clone / drop operations of the trace), and once the last receiver
+   handle is gone nothing stays buffered. *)
+Theorem C11_handles_trace : forall kr ks c ls,
+  mlegal_run (init kr ks c) ls = true ->
+  handles_ok true (mtrace (init kr ks c) ls) = true.
+Proof. exact handles_trace_holds. Qed.
+
 Example C11_witness :
   (* two sender handles: dropping one does not close, dropping the second does; a pending
      receive future outlives its handle and is woken by the implicit close *)
@@ -81,6 +91,7 @@ Print Assumptions C11_closed_monotone.
 Print Assumptions C11_send_after_close.
 Print Assumptions C11_close_wakes_all.
 Print Assumptions C11_close_wakes_trace.
+Print Assumptions C11_handles_trace.
 Print Assumptions C11_drain_then_none.
 Print Assumptions C11_implicit_close.
 Print Assumptions C11_last_receiver_clears.
